@@ -224,4 +224,19 @@ def discharge(prog, b, kind, bb, obj):
         return False, 'index with a bound no local pattern discharges'
     if kind in ('unwrap', 'panic'):
         return False, 'explicit unwrap/expect/panic on the inbound path'
+    if kind == 'time-arith':
+        # fine when no operand can be steered by a peer: operands are clock reads, constants, configuration fields
+        def steerable(e):
+            for x in e.walk():
+                if x.k == 'call' and re.search(r'postcard::from_bytes$|serde_json::from_(slice|str)$|bincode::deserialize$', x.a):
+                    return 'decoded input'
+                if x.k == 'field' and isinstance(x.b, str) and re.search(r'(WireMessage|Envelope|DhtNetworkMessage|DhtMessage|DhtRecord|NodeInfo|DHTNode)::', x.b):
+                    return 'message field %s' % x.b.rsplit('::', 1)[-1]
+            return None
+        for a in cs.args:
+            why = steerable(b.expr(a))
+            if why:
+                return False, ('%s on a value derived from %s: overflows (panics) for extreme peer-supplied values; use checked_add / checked_sub'
+                               % (cs.callee.rsplit('::', 1)[-1], why))
+        return True, 'time arithmetic on clock reads / constants / configuration only'
     return False, 'undischarged %s' % kind
